@@ -3,6 +3,12 @@
 Conditions *record and return True* (they never raise into the code under test), so the
 contracts can stay attached while the classes are used inside other solvers (kruskal).
 `LOG` collects broken conditions, `COUNT` the number of evaluations per condition.
+
+The conditions look at the *representation* (parent pointers, ranks, the implicit tree of partial sums).  A broken
+condition is therefore an **anomaly**, not a verdict: C20 is a statement about answers, and the property check turns
+an anomaly into an immediate full audit of the public answers against its shadow model (vf/props/c20.py) - only a
+wrong answer is a violation.  A representation that differs from the one assumed here (or a renamed field) makes the
+conditions raise or misread; both are swallowed and counted, never passed into the code under test.
 """
 
 import icontract
@@ -203,6 +209,23 @@ class ContractBroken(Exception):
     pass
 
 
+def _safe(fn):
+    """The conditions read private fields (_parent, _rank, _count, _tree, _n).  A class that keeps the public
+    behaviour but changes its representation must not be disturbed by them: any exception inside a condition or a
+    snapshot is counted (`monitor.error.<name>`) and the condition reports nothing."""
+    import functools
+
+    @functools.wraps(fn)
+    def guarded(*a, **k):
+        try:
+            return fn(*a, **k)
+        except Exception:
+            _tick("monitor.error." + fn.__name__)
+            return True
+
+    return guarded
+
+
 def attach(exact_fenwick=True):
     """Decorate the real classes in place (idempotent). exact_fenwick: contracts compare with ==,
     so they are only attached to FenwickTree when the workload uses exactly representable numbers."""
@@ -216,10 +239,13 @@ def attach(exact_fenwick=True):
     UF, FT = ds.UnionFind, ds.FenwickTree
 
     def deco(cls, name, snaps, post):
-        fn = cls.__dict__[name]
-        wrapped = icontract.ensure(post, error=ContractBroken)(fn)
+        fn = cls.__dict__.get(name)
+        if fn is None or not callable(fn):
+            _tick("monitor.unattachable." + name)
+            return
+        wrapped = icontract.ensure(_safe(post), error=ContractBroken)(fn)
         for sname, sfn in snaps:
-            wrapped = icontract.snapshot(sfn, name=sname)(wrapped)
+            wrapped = icontract.snapshot(_safe(sfn), name=sname)(wrapped)
         setattr(cls, name, wrapped)
 
     deco(UF, "find", [("root", _snap_root_x), ("part", _snap_partition)], uf_find_post)
@@ -228,9 +254,9 @@ def attach(exact_fenwick=True):
     deco(UF, "component_sizes", [("part", _snap_partition)], uf_sizes_post)
     deco(UF, "get_components", [("part", _snap_partition)], uf_components_post)
     for inv in (uf_forest, uf_count, uf_rank):
-        icontract.invariant(inv, error=ContractBroken)(UF)
+        icontract.invariant(_safe(inv), error=ContractBroken)(UF)
     if exact_fenwick:
         deco(FT, "update", [("arr", _snap_arr)], ft_update_post)
         deco(FT, "prefix", [("arr", _snap_arr)], ft_prefix_post)
         deco(FT, "range_sum", [("arr", _snap_arr)], ft_range_post)
-        icontract.invariant(ft_shape, error=ContractBroken)(FT)
+        icontract.invariant(_safe(ft_shape), error=ContractBroken)(FT)
